@@ -5,6 +5,6 @@ ID="$1"; P="$2"; T="${3:-quick}"
 cd /repo || exit 2
 git diff --quiet || { echo "repo dirty"; exit 2; }
 git apply "/verif/seeded/$ID/patch.diff" || { echo "patch does not apply"; exit 2; }
-( cd /verif && ./check.sh "$P" "$T" 2>&1 | grep -aE "^(VIOLATION|KNOWN|RESULT|MACHINERY|  key)" | cut -c1-400 | head -${LINES_MAX:-12} )
+( cd /verif && VERIF_EVIDENCE_DIR=/tmp/verif-mutant-evidence ./check.sh "$P" "$T" 2>&1 | grep -aE "^(VIOLATION|KNOWN|RESULT|MACHINERY|  key)" | cut -c1-400 | head -${LINES_MAX:-12} )
 git -C /repo checkout -- .
 git -C /repo status --short | head -3
